@@ -1,4 +1,5 @@
 """C03 — register report: canonical order and exact running totals."""
+import decimal
 import re
 from decimal import Decimal as D
 from fractions import Fraction as F
@@ -74,6 +75,14 @@ class C03(PropBase):
         n = 1500 if quick else 40000
         for _ in range(n):
             out.append(self.gen_random(rng))
+        # displayed at a small report scale: amounts and totals are the exact figures rounded once (half away from zero);
+        # the last total still agrees with the balance report, which rounds the same exact sum
+        for _ in range(120 if quick else 4000):
+            c = rng.choice([self.gen_random, self.gen_dup_account, self.gen_two_comm])(rng)
+            mx = rng.randrange(0, 4)
+            c["cfg"]["scale_min"], c["cfg"]["scale_max"] = rng.randrange(0, mx + 1), mx
+            c["kind"] = "scaled:" + c["kind"]
+            out.append(c)
         return out
 
     def mk(self, rng, cfg, txns, kind, names=None):
@@ -299,6 +308,8 @@ class C03(PropBase):
         return out
 
     def model_case(self, case):
+        if case.get("cfg", {}).get("scale_max") is not None:
+            return None     # display scale: C17's model; here the implementation is judged by the oracle
         c = {"op": "run", "cfg": model_cfg(case.get("cfg", {})), "txns": case["txns"],
              "want": ["txns", "register", "register_all"]}
         if case.get("msel_register"):
@@ -398,6 +409,9 @@ class C03(PropBase):
         # 2. without selector: one entry per transaction, in the loaded order, showing exactly its postings
         if len(ea) != len(txns):
             return {"sig": "entry-count", "what": "%d transactions but %d register entries without selector" % (len(txns), len(ea))}
+        mx_ = case.get("cfg", {}).get("scale_max")
+        if mx_ is not None:
+            return self.oracle_scaled(case, out, txns, ea, mx_)
         totals = {}
         history = {}
         inexact_hit = None
@@ -474,6 +488,48 @@ class C03(PropBase):
             if es != ea:
                 return {"sig": "selector-changes-report", "what": "two runs without selector differ"}
         return inexact_hit
+
+    def oracle_scaled(self, case, out, txns, ea, mx):
+        """a report scale with few decimals: every shown amount is the posted amount rounded half away from zero to
+        `mx` decimals, the total shown last for an account in an entry is the exact running total rounded the same way,
+        and the last total of every account is what the balance report shows"""
+        q = D(1).scaleb(-mx)
+
+        def rnd(x):
+            with decimal.localcontext() as ctx:
+                ctx.prec = 60
+                return D(x).quantize(q, rounding=decimal.ROUND_HALF_UP)
+        totals, last, hist = {}, {}, {}
+        for i, (e, t) in enumerate(zip(ea, txns)):
+            shown = sorted((a, D(v), c) for a, v, _, c in e["rows"])
+            posted = sorted((p["acct"], rnd(D(p["amount"])), p["comm"]) for p in t["posts"])
+            if [(a, v.normalize() if v else v, c) for a, v, c in shown] != [(a, v.normalize() if v else v, c) for a, v, c in posted]:
+                return {"sig": "scaled-entry-rows", "what": "entry %d at scale max %d shows %s, the postings rounded half away from zero are %s" % (i, mx, shown, posted)}
+            for p in t["posts"]:
+                k = (p["acct"], p["comm"])
+                hist.setdefault(k, []).append(p["amount"])
+                if not chain_exact(hist[k]):
+                    return None     # a partial sum is not representable: outside the numeric domain (F17)
+                with decimal.localcontext() as ctx:
+                    ctx.prec = 60
+                    totals[k] = totals.get(k, D(0)) + D(p["amount"])
+            fin = {}
+            for a, v, tot, c in e["rows"]:
+                fin[(a, c)] = tot
+            for k, tot in fin.items():
+                last[k] = tot
+                if D(tot) != rnd(totals[k]):
+                    return {"sig": "scaled-running-total", "what": "entry %d: total of %s %s shows %s, the exact running total %s rounds to %s at %d decimals" % (
+                        i, k[0], k[1], tot, totals[k], rnd(totals[k]), mx)}
+        bo = out.get("balance", {})
+        if bo.get("r") == "OK":
+            bal = common.parse_balance_report(bo["v"])
+            if bal is not None:
+                own = {(a, c): o for c, a, o, _t in bal[0]}
+                for k, v in last.items():
+                    if k in own and own[k] != "?" and D(own[k]) != D(v):
+                        return {"sig": "last-total-balance", "what": "last running total of %s %s is shown as %s, the balance report shows %s" % (k[0], k[1], v, own[k])}
+        return None
 
     def nontrivial(self, case, impl):
         if impl.get("r") != "OK":
